@@ -246,12 +246,14 @@ func init() {
 			}
 			r = append(r, &Instance{Pkg: tb, Func: "VH_C10_readpath", Unwind: 32})
 			r = append(r, &Instance{Pkg: "storage/table/fsm", Func: "VH_C10_samedelivery", Unwind: 32})
+			r = append(r, &Instance{Pkg: "storage/table/fsm", Func: "VH_C10_listener", Args: []int64{0}, Unwind: 32})
+			r = append(r, &Instance{Pkg: "storage/table/fsm", Func: "VH_C10_listener", Args: []int64{1}, Unwind: 32})
 			r = append(r, &Instance{Pkg: tb, Func: "VH_C10_vacuity", Expect: "violated"})
 			return r
 		},
-		Covers: map[string][]string{"VH_C10_revision": {"end"}, "VH_C10_readpath": {"end", "linearizable"}, "VH_C10_samedelivery": {"end"}},
+		Covers: map[string][]string{"VH_C10_revision": {"end"}, "VH_C10_readpath": {"end", "linearizable"}, "VH_C10_samedelivery": {"end"}, "VH_C10_listener": {"end", "listener-called"}},
 		Bounds: map[string]string{
-			"quick":    "one mutation of each kind (put, delete, delete range, transaction with empty / writing / read-only taken branch) at an arbitrary log index (1..64; any 64-bit index for put and empty-branch transaction), followed by a second mutation; 1-byte keys and values; one delivery (one apply call) of a put at revision N and a read-write transaction at N+1 whose branch writes a key and reads both keys, from an arbitrary state of 0..1 pairs: the reads reflect every lower-revision write and the transaction's own earlier ops",
+			"quick":    "one mutation of each kind (put, delete, delete range, transaction with empty / writing / read-only taken branch) at an arbitrary log index (1..64; any 64-bit index for put and empty-branch transaction), followed by a second mutation; 1-byte keys and values; one delivery (one apply call) of a put at revision N and a read-write transaction at N+1 whose branch writes a key and reads both keys, from an arbitrary state of 0..1 pairs: the reads reflect every lower-revision write and the transaction's own earlier ops; the applied-index listener (which releases waiting follower writes): a read issued from inside it already sees the reported entry's write, on a leader-side and on a replicated table",
 			"thorough": "any 64-bit index for every kind",
 		},
 		Outside:     "that dragonboat's SyncRead is linearizable and that proposals are totally ordered (model M2 assumes it); concurrent clients beyond the total order",
